@@ -18,7 +18,7 @@ EXPLANATION = (
     "(sqrt of a sum, division of every entry) dominates the convergence test, so the vector that is returned is the normalised one.  "
     "R-C18-2: the function (and its closures) never reads the raw by-index adjacency lists, whose entries are per-pair cache values "
     "(an undirected self-loop is listed twice), so the matrix it iterates is the one of the stored edges.  "
-    "R-C18-3 holds in both directions (constant => unweighted or NaN; stored weight => weighted and a number).  NOT decided: unit norm, non-negativity, fixed-point quality (numerical)."
+    "R-C18-3 holds in both directions (constant => unweighted or NaN; stored weight => weighted and a number).  R-C18-6: the Ok payload is the map the normalising division writes into.  NOT decided: unit norm, non-negativity, fixed-point quality (numerical)."
 )
 TRUSTED = ["rustc MIR construction", "over-approximated dependence"]
 
@@ -180,6 +180,53 @@ def run(ctx):
                 lim5 = sorted(cal5 & {"max", "min", "clamp", "floor", "ceil", "round", "abs", "recip"})
                 ctx.require(not lim5, "R-C18-5", "norm|%s" % b5.short.split("::{closure")[0], "the vector is divided by sqrt(sum of squares)", "the divisor of the normalisation passes through %s: a vector whose norm lies on the other side of that bound is returned un-normalised (norm != 1), and the convergence test then compares un-normalised vectors" % lim5, loc_str(st5.span))
     ctx.floor("R-C18-5", "normalising_divisions", n5, 1)
+    # R-C18-6: what is returned is the vector that was just normalised -- not the copy of the previous iterate the
+    # convergence test compares it with (that one is un-normalised on the first pass: 1/n per node, norm 1/sqrt(n))
+    ctx.rule("R-C18-6", "the Ok payload is the map the normalising division writes into, not a copy taken before the iteration step")
+    normalised = set()
+    for b6 in [ec5] + list(prog.closures_of(ec5.path)):
+        f6 = flows.of(b6)
+        for st6 in b6.stmts():
+            if not (st6.k == "assign" and st6.rv.k == "binop" and st6.rv.j["op"] == "Div" and st6.lhs.ty == "f64" and st6.lhs.has_deref()):
+                continue
+            if b6.path == ec5.path:
+                for nd6 in f6.slice_local([L(st6.lhs.local)], data_only=True):
+                    if nd6[0] == "CALL":
+                        t6 = b6.blocks[nd6[1]].term
+                        if t6.callee and t6.callee.short.split("::")[-1] in ("values_mut", "iter_mut", "get_mut", "entry", "index_mut") and t6.args:
+                            normalised |= {o[1] for o in f6.mut_reach(t6.args[0]) if o[0] == "L"}
+            else:
+                fp = flows.of(ec5)
+                for (pp, s_) in flows.closure_sites(b6.path):
+                    if pp != ec5.path:
+                        continue
+                    cl = fp.copies_of(s_.lhs.local) | {s_.lhs.local}
+                    for t6 in ec5.calls():
+                        if t6.callee and t6.callee.short.split("::")[-1] in ("for_each", "map", "fold") and any(a.place is not None and a.place.local in cl for a in t6.args[1:]):
+                            for nd6 in fp.slice_local(fp._op_reads(t6.args[0]), data_only=True):
+                                if nd6[0] == "CALL":
+                                    t7 = ec5.blocks[nd6[1]].term
+                                    if t7.callee and t7.callee.short.split("::")[-1] in ("values_mut", "iter_mut") and t7.args:
+                                        normalised |= {o[1] for o in fp.mut_reach(t7.args[0]) if o[0] == "L"}
+    fe6 = flows.of(ec5)
+    n6 = 0
+    for (bb6, w6, s6) in (ok_producers(ec5) or []):
+        if w6 != "Ok(..)" or not s6.rv.ops or s6.rv.ops[0].place is None:
+            continue
+        n6 += 1
+        l6 = s6.rv.ops[0].place.local
+        for _ in range(6):
+            d6 = fe6.single_def(l6)
+            if d6 is not None and getattr(d6, "rv", None) is not None and d6.rv.k == "use" and d6.rv.ops[0].place is not None and not d6.rv.ops[0].place.proj and ec5.local_name(l6) is None:
+                l6 = d6.rv.ops[0].place.local
+            else:
+                break
+        if not normalised:
+            ctx.undecided("R-C18-6", "payload|%d" % n6, "the map written by the normalising division could not be identified", loc_str(s6.span))
+            continue
+        ctx.require(l6 in normalised, "R-C18-6", "payload|%d" % n6, "Ok(%s) returns the normalised map" % (ec5.local_name(l6) or "_%d" % l6),
+                    "eigenvector_centrality returns `%s`, which is not the map the normalisation writes into (%s): when the test passes on the first pass the start vector (1/n per node) is returned, whose Euclidean norm is 1/sqrt(n), not 1" % (ec5.local_name(l6) or "_%d" % l6, sorted(ec5.local_name(x) or "_%d" % x for x in normalised)), loc_str(s6.span))
+    ctx.floor("R-C18-6", "ok_payloads", n6, 1)
     # R-C18-4: the iteration walks the index-keyed adjacency maps (get_successors_or_neighbors); an entry of those maps
     # must never be replaced by a fresh one for a node that already has edges
     from graphrules import adjacency_entries_only_for_new_nodes
